@@ -145,7 +145,9 @@ func (s *Scope) Get(sym Symbol) Object {
 func (s *Scope) get(name string) Object {
 	if pkg, vname, private := UnpackName(name); pkg != nil {
 		if vv := pkg.GetVarVal(vname); vv != nil && (vv.Export || private) {
-			return vv.Value()
+			if value := vv.Value(); Unbound != value {
+				return value
+			}
 		}
 		UnboundVariablePanic(s, 0, Symbol(name), "Variable %s is unbound.", name)
 	}
